@@ -304,6 +304,24 @@ func build(kind string, entry []byte, list []kv) (script []byte, status string) 
 	}
 	p, _ := hx.Guard(func() {
 		e = envs.NewEnvironments()
+		if (len(list)+len(entry))%2 == 1 {
+			// An Environments instance lives as long as its scope and serves several sandboxes: in half of the
+			// cases an earlier script was built from it while the variables still had other values; the
+			// script built afterwards must carry the values configured last (no new name is added below).
+			for i, x := range list {
+				e.Set(string(x.k), "stale-"+strconv.Itoa(i)+"-$(echo stale)")
+			}
+			if kind == "container" {
+				if r0, e0 := dcmd.InitSequence(e); e0 == nil {
+					io.Copy(io.Discard, r0)
+				}
+			} else {
+				if r0, e0 := sshsb.VerifInitSequence("stale-entrypoint", e); e0 == nil {
+					io.Copy(io.Discard, r0)
+				}
+			}
+			_ = e.All()
+		}
 		for i, x := range list {
 			if i%2 == 0 {
 				err = e.Set(string(x.k), string(x.v))
